@@ -17,6 +17,7 @@ DOC = {
         'C18.R2': 'move_copy removes the source only after the copy succeeded (= C05.R3)',
         'C18.R3': 'move_target = target_dir.join([root name]).join(source.strip_root()); the Move command\'s target is move_target(target_dir, <the dropped file\'s path>)',
         'C18.R4': 'use_rename = are_on_same_mount(devices, source, target_dir) (mount points compared for equality); execute tries rename only under use_rename; DIR is resolved against the working directory in main',
+        'C18.R6': 'the device table cannot make `move` panic: a vector of DiskDevices that is indexed with a constant (devices[0], the default device) is one that DiskDevices::new() pushes to unconditionally; the list of mount points comes from sysinfo and can be empty, so it is only searched',
         'C18.R5': 'the existence test in check_can_rename does not follow symlinks (uses symlink_metadata / lstat)',
     },
     'not_decided': 'the time-of-check/time-of-use window between the existence test and rename/copy; mount-point detection on real systems; byte preservation by fs::copy',
@@ -43,10 +44,66 @@ def run(ctx):
     r2(ctx, lib)
     r3(ctx, lib)
     r4(ctx, lib)
+    r6(ctx, lib)
 
 
 EXIST_FOLLOW = r'^std::path::Path::(exists|try_exists|metadata|is_file|is_dir)$|^std::fs::(metadata|exists)$|^std::fs::File::open$'
 EXIST_NOFOLLOW = r'^std::path::Path::(symlink_metadata|is_symlink)$|^std::fs::symlink_metadata$|nix::sys::stat::lstat$|^libc::lstat'
+
+
+def r6(ctx, lib):
+    """DiskDevices: an element fetched with a constant index exists by construction (new() pushes to that vector unconditionally)."""
+    rule = 'C18.R6'
+    nb = ctx.need_body(rule, 'device::DiskDevices::new')
+    if nb is None:
+        return
+    # fields of DiskDevices that new() (or a helper it calls outside of any loop) pushes to on every path
+    def pushes(body):
+        out = {}
+        for c in body.calls(r'Vec<.*>::push$|Vec::<T, A>::push$'):
+            fs = backslice(body, [c.args[0]]).field_names()
+            for f in fs:
+                out.setdefault(f, []).append(c)
+        return out
+    def in_loop(body, bb):
+        return any(bb in body.reachable(x) for x in body.succs(bb))
+    sure = set()
+    rets = nb.return_blocks()
+    for c in nb.calls():
+        if in_loop(nb, c.bb) or not all(nb.dominates(c.bb, r) for r in rets):
+            continue
+        if c.matches(r'Vec<.*>::push$|Vec::<T, A>::push$'):
+            sure |= set(backslice(nb, [c.args[0]]).field_names())
+        else:
+            hb = lib.body(c.path) if c.path and c.path.startswith('device::DiskDevices::') else None
+            if hb is not None:
+                from .common import bypass_decisions
+                for f, cs in pushes(hb).items():
+                    for k in cs:
+                        if in_loop(hb, k.bb):
+                            continue
+                        # a path that returns without the push is one on which an element of the same vector has been found
+                        found = True
+                        for d, _by in bypass_decisions(hb, k.bb):
+                            dsl = backslice(hb, [hb.blocks[d]['term']['op']])
+                            if not (f in dsl.field_names() and dsl.has_call(r'::(find_position|position|find|any|contains|first|last|get|is_empty|len)$')):
+                                found = False
+                        if found:
+                            sure.add(f)
+    n = 0
+    for p_, b in sorted(lib.bodies.items()):
+        if not p_.startswith('device::DiskDevices::') or re.search(r'(^|::)tests?(::|$)', p_):
+            continue
+        for c in b.calls(r'as std::ops::Index<.*>>::index$'):
+            if len(c.args) < 2 or 'k' not in c.args[1]:
+                continue            # not a constant index
+            fs = set(backslice(b, [c.args[0]]).field_names()) & {'devices', 'mount_points'}
+            for f in sorted(fs):
+                n += 1
+                ctx.check(f in sure, rule, '%s|%s[const]' % (p_, f), c.where(), '`%s` is never empty: DiskDevices::new() adds an element unconditionally' % f,
+                          '`self.%s[..]` is evaluated with a constant index, but DiskDevices::new() fills that vector only from the disk list of sysinfo, which is empty on a system without a disk-backed '
+                          'mount (tmpfs root, initramfs, container): the index panics - `fclones move DIR` (get_mount_point, for every file to move, also with --dry-run) dies with exit 101' % f)
+    ctx.floor(rule, 'constant indexes into the vectors of DiskDevices', n, 1)
 
 
 def r15(ctx, lib):
